@@ -70,3 +70,16 @@ Example C03_source_nonvacuous :
 Proof.
   cbv zeta. split; [split; reflexivity|]. split; [intros e H; discriminate|]. split; [exists SNInf, []; reflexivity|]. split; cbn; lia.
 Qed.
+
+(* C03 for a call whose loop is the GENERATED code: model init_search, generated search loop, model finish_search *)
+Theorem C03_source_call_accounting : forall (OP : optimizer) sp f clk pa pr (s : drv OP) (c : call) (g : g_search (drv OP)) k g' k' s',
+  init_search sp clk s c = Ok (abs g k) ->
+  ties g -> stop_wf pa pr g -> stop_shape pa pr g -> gs_n_init_search g <= 0 -> gs_n_iter g = c_n_iter c -> 0 <= c_n_iter c ->
+  g_Search_search_loop (drv OP) (inner_score sp f) clk k g (c_n_iter c) = Ok (g', k') ->
+  finish_search sp (abs g' k') = Ok s' ->
+  exists n, call_accounting clk s c s' n.
+Proof.
+  intros OP sp f clk pa pr s c g k g' k' s' HI T WF SH NI NN N0 HL HF.
+  apply (@C03_call_holds OP sp f clk s s' c N0). eapply source_search_is_model_search; eassumption.
+Qed.
+Print Assumptions C03_source_call_accounting.
